@@ -253,7 +253,7 @@ pub fn run(prop: &str, tier: &str, replay: Option<&str>) -> i32 {
     let children = if cfg!(feature = "ring") { vec![run::spawn_child("aws", prop, tier)] } else { vec![] };
     let zoo = load_zoo();
     let mut keys: Vec<KeyCase> = Vec::new();
-    for z in zoo.iter().filter(|z| backend_supports(z.kind, z.format) && (thorough || (z.name.contains("_1") && !matches!(z.kind, KeyKind::Rsa3072 | KeyKind::Rsa4096)))) {
+    for z in zoo.iter().filter(|z| backend_supports(z.kind, z.format) && (thorough || (z.name.contains("_1") && !z.kind.is_slow()))) {
         let a = z.kind.natural_alg();
         if let Ok(kp) = rc_load(z, a) {
             keys.push(KeyCase { label: z.name.clone(), kp, alg: a, needles: needles_for(&z.pkey), der: z.der.clone(), format: z.format });
@@ -399,26 +399,43 @@ pub fn run(prop: &str, tier: &str, replay: Option<&str>) -> i32 {
         let tb = text.as_bytes().to_vec();
         let bundle_cert: &str = &bundle_cert_pem;
         let alphabet: &[u8] = if thorough { b"\n\r -=:A/+\x00\xff,;#" } else { b"\n -=A\x00" };
-        let positions: Vec<usize> = (0..=tb.len()).filter(|p| thorough || tb.len() < 400 || *p < 140 || *p + 70 > tb.len()).collect();
-        let sec = Section::new(&format!("errors-pem-d1/key{:02} {}", ki, k.label), "PEM text of the private key with, at every position, every character of a 15-character boundary alphabet overwritten and inserted, the character deleted, and the text truncated there; each variant alone and inside a bundle (followed by a certificate block, preceded by one, followed by a second key block); through every PEM loader and parser").with_deadline(if thorough { 900 } else { 30 });
+        // whole-text conventions a key file may follow; every edit below is applied on top of each of them
+        let conventions: Vec<(&str, Vec<u8>)> = {
+            let lines: Vec<&str> = text.lines().collect();
+            let join = |pre: &str, post: &str, eol: &str| lines.iter().map(|l| format!("{}{}{}{}", pre, l, post, eol)).collect::<String>().into_bytes();
+            let mut v = vec![("LF", tb.clone()), ("CRLF", join("", "", "\r\n")), ("trailing space", join("", " ", "\n"))];
+            if thorough {
+                v.push(("trailing tab", join("", "\t", "\n")));
+                v.push(("indented", join(" ", "", "\n")));
+                v.push(("CRLF + trailing space", join("", " ", "\r\n")));
+            }
+            v
+        };
+        let positions: Vec<usize> = (0..=tb.len() + 40).filter(|p| thorough || tb.len() < 400 || *p < 140 || *p + 110 > tb.len()).collect();
+        let sec = Section::new(&format!("errors-pem-d1/key{:02} {}", ki, k.label), "PEM text of the private key (as written with LF, with CRLF, with trailing blanks; thorough: also tabs, indentation) with, at every position, every character of a 15-character boundary alphabet overwritten and inserted, the character deleted, and the text truncated there; each variant alone and inside a bundle (followed by a certificate block, preceded by one, followed by a second key block); through every PEM loader and parser").with_deadline(if thorough { 900 } else { 30 });
         run::sweep_cases(&sec, &positions, &|p| format!("position {}", p), &|p| {
             let mut out = Outcome::default();
             let mut variants: Vec<Vec<u8>> = Vec::new();
-            for &c in alphabet {
-                if *p < tb.len() {
+            for (_, tb) in &conventions {
+                if *p > tb.len() {
+                    continue;
+                }
+                for &c in alphabet {
+                    if *p < tb.len() {
+                        let mut m = tb.clone();
+                        m[*p] = c;
+                        variants.push(m);
+                    }
                     let mut m = tb.clone();
-                    m[*p] = c;
+                    m.insert(*p, c);
                     variants.push(m);
                 }
-                let mut m = tb.clone();
-                m.insert(*p, c);
-                variants.push(m);
-            }
-            if *p < tb.len() {
-                let mut m = tb.clone();
-                m.remove(*p);
-                variants.push(m);
-                variants.push(tb[..*p].to_vec());
+                if *p < tb.len() {
+                    let mut m = tb.clone();
+                    m.remove(*p);
+                    variants.push(m);
+                    variants.push(tb[..*p].to_vec());
+                }
             }
             for v in variants {
                 if let Ok(t) = std::str::from_utf8(&v) {
@@ -439,6 +456,33 @@ pub fn run(prop: &str, tier: &str, replay: Option<&str>) -> i32 {
             out
         });
         rep.add(sec);
+        // two insertions (whitespace / framing characters) at every pair of positions: the smallest key only
+        if ki == 0 {
+            let ab: &[u8] = b"\n \r\t-=";
+            let n = tb.len();
+            let rows: Vec<usize> = (0..=n).collect();
+            let sec = Section::new(&format!("errors-pem-d2-inserts/key{:02} {}", ki, k.label), &format!("every pair of insertions of the characters LF, space, CR, tab, '-', '=' at every pair of positions of the {}-byte key text ({} texts), through every PEM loader and parser", n, (n + 1) * (n + 2) / 2 * ab.len() * ab.len())).with_deadline(if thorough { 900 } else { 40 });
+            run::sweep_cases(&sec, &rows, &|i| format!("first insertion at {}", i), &|i| {
+                let mut out = Outcome::default();
+                for j in *i..=n {
+                    for &a in ab {
+                        for &b in ab {
+                            let mut m = tb.clone();
+                            m.insert(j, b);
+                            m.insert(*i, a);
+                            if let Ok(t) = std::str::from_utf8(&m) {
+                                out.transitions += loaders_errors(&[], Some(t), &k.needles, &mut out.findings);
+                            }
+                            sec.states.fetch_add(1, std::sync::atomic::Ordering::Relaxed);
+                        }
+                    }
+                }
+                out.findings.dedup_by(|a, b| a.sig() == b.sig());
+                out.digest = 1 + (*i as u64 % 7);
+                out
+            });
+            rep.add(sec);
+        }
         // wrong labels around the right body
         let labels = ["CERTIFICATE", "CERTIFICATE REQUEST", "PUBLIC KEY", "X509 CRL", "EC PRIVATE KEY", "RSA PRIVATE KEY", "ENCRYPTED PRIVATE KEY", "", "PRIVATE KEY\u{e9}"];
         let sec = Section::new(&format!("errors-pem-labels/key{:02} {}", ki, k.label), "the key's DER under every other PEM label, through every PEM loader and parser");
